@@ -12,6 +12,8 @@ w = doc.get("witness") or {}
 
 def ens():
     e = ml.ConformerEnsemble.load_mol2(ml.files.pentane_confs_mol2)
+    for b in e.bonds:
+        b.btype = ml.BondType.Double          # not the type a lenient reader would fill in for a missing token
     return e
 
 
@@ -37,6 +39,12 @@ def damaged(lines, kind, k):
         return lines[:k] + [" ".join(toks) + "\n"] + lines[k + 1:]
     if kind == "truncate":
         return lines[:k]
+    if isinstance(kind, str) and kind.startswith("cut"):       # the text ends inside line k after its first j tokens
+        j = int(kind[3:])
+        toks = lines[k].split()
+        if j >= len(toks):
+            return lines
+        return lines[:k] + [" ".join(toks[:j])]
     if kind == "delete":
         return lines[:k] + lines[k + 1:]
     return lines[:k + 1] + [lines[k]] + lines[k + 1:]
@@ -47,6 +55,21 @@ def check(fmt, kind, k, e, text, ref):
     if k >= len(lines):
         return None
     t = "".join(damaged(lines, kind, k))
+    # the parser level: every block handed out has the records its count line declares
+    signal.alarm(20)
+    try:
+        from io import StringIO
+        import molli.parsing as mp
+        blocks = list(getattr(mp, f"read_{fmt}")(StringIO(t)))
+        signal.alarm(0)
+        for j, b in enumerate(blocks):
+            hdr = b.header if fmt == "mol2" else b
+            if len(b.atoms) != hdr.n_atoms or (fmt == "mol2" and len(b.bonds) != hdr.n_bonds):
+                return f"{fmt}: after {kind} at line {k} read_{fmt} handed out block {j} with {len(b.atoms)} atom records, its count line declares {hdr.n_atoms}"
+    except TimeoutError:
+        return f"{fmt}: read_{fmt} did not terminate on {kind} of line {k}"
+    except BaseException:
+        signal.alarm(0)
     signal.alarm(20)
     try:
         got = summarize(getattr(ml.Molecule, f"loads_all_{fmt}")(t))
@@ -106,6 +129,8 @@ for fmt in ([w.get("format")] if w.get("format") else ["mol2", "xyz"]):
         if fmt == "mol2":
             # atom ids (first token of the atom records) replaced by other ids
             fam += [(("token", 0, new), k) for k in range(0, min(n, per)) for new in ("1", "2", "0", "3") if lines_of[k].split()[:1] and lines_of[k].split()[0].isdigit() and len(lines_of[k].split()) >= 6]
+    elif w.get("kind") == "cut":
+        fam = [(f"cut{j}", k) for k in range(0, min(n, 3 * per)) for j in range(1, 10)]
     elif search or w.get("kind") is None:
         fam = [(kd, k) for kd in ("truncate", "delete", "duplicate") for k in range(0, min(n, 3 * per))]
     else:
